@@ -521,6 +521,10 @@ impl<M, B> Engine<M, B> {
 
     /// Check if the search has timed out
     pub fn is_timed_out(&self) -> bool {
+        #[cfg(selen_verif)]
+        if crate::verif_hooks::timed_out_flag() {
+            return true;
+        }
         if let Some(timeout_duration) = self.timeout_duration {
             self.start_time.elapsed() >= timeout_duration
         } else {
@@ -592,10 +596,19 @@ impl<M: Mode, B: Iterator<Item = (Space, crate::constraints::props::PropId)>> It
     type Item = Solution;
 
     fn next(&mut self) -> Option<Self::Item> {
+        #[cfg(selen_verif)]
+        if let Some(interval) = crate::verif_hooks::check_interval() {
+            self.timeout_check_interval = interval;
+        }
         loop {
             // Periodically check timeout and memory limits to reduce overhead
             self.iteration_count += 1;
             if self.iteration_count % self.timeout_check_interval == 0 {
+                #[cfg(selen_verif)]
+                if crate::verif_hooks::scripted_timeout_fires() {
+                    self.trigger_cleanup();
+                    return None;
+                }
                 // Check timeout
                 if let Some(timeout_duration) = self.timeout_duration {
                     if self.start_time.elapsed() >= timeout_duration {
